@@ -53,6 +53,37 @@ def strip_views(e):
     return e
 
 
+def upvar_source(prog, cb, e):
+    """for an expression of closure body `cb` that is rooted in a captured variable (place `(*_1).k ...`), the
+    expression of the captured operand in the function that creates the closure (a `&self.field` capture gives
+    ('ref', [.., field])); None if e is not an upvar or the creation site is not unique"""
+    if cb.kind != "closure" or e[0] not in ("place", "ref") or len(e[1]) < 2:
+        return None
+    pl = e[1]
+    if pl[0] != 1:
+        return None
+    k = None
+    for x in pl[1:3]:
+        if isinstance(x, dict) and "up" in x:
+            k = x["f"]
+    if k is None:
+        return None
+    parent = prog.bodies.get(cb.parent) if cb.parent else None
+    # nested closures: the creating body is the lexical parent closure, whose id prefixes cb.id
+    cands = [parent] if parent is not None else []
+    pid = cb.id.rsplit("::{closure#", 1)[0]
+    if pid in prog.bodies and prog.bodies[pid] not in cands:
+        cands.insert(0, prog.bodies[pid])
+    for pb in cands:
+        sites = []
+        for bi, si, st in pb.statements():
+            if st["s"] == "assign" and st["r"]["rv"] == "agg" and isinstance(st["r"]["kind"], dict) and st["r"]["kind"].get("closure") == cb.id:
+                sites.append(st["r"]["ops"])
+        if len(sites) == 1 and k < len(sites[0]):
+            return pb.expr(sites[0][k])
+    return None
+
+
 # ------------------------------------------------------------------ guard edges
 def guard_edges(body, leaf_pred, truth=True):
     """CFG edges on which `leaf_pred` holds with truth value `truth`."""
